@@ -14,6 +14,8 @@ CONSTANTS Streams,    \* set of streams; a stream is a sequence of message kinds
           MaxReads,   \* bound on the number of reads (cuts + 1); 0 = unbounded
           Cuts,       \* set of stream offsets at which a read may end (besides the end); {} = any
           Fails,      \* sets of stream positions whose message handler fails (raises) when the message is delivered
+          Swaps,      \* sets of stream positions whose message handler installs a new set of message handlers (as the
+                      \* handshake does when the barrier reply arrives): later messages go to the new handlers
           D
 
 VARIABLES stream, fed, delivered, nreads, last, hist
@@ -33,10 +35,13 @@ Log(a, args, exp) == /\ last' = [a |-> a, args |-> args, exp |-> exp]
 
 \* A consumer whose handler fails on some message is the consumer's business: the message counts as delivered
 \* and framing of everything after it is what it would have been - so F appears in no other action.
-Choose(s, F) == /\ stream = <<>> /\ s \in Streams /\ stream' = s
-                /\ F \in Fails /\ F \subseteq 1..Len(s)
-                /\ UNCHANGED <<fed, delivered, nreads>>
-                /\ Log("Stream", [kinds |-> s, fail |-> F], [x |-> 0])
+\* The same holds for a handler that replaces the connection's handlers (W): "delivered" means handed to the
+\* handlers in force when the message is reached, wherever the read boundaries fall.
+Choose(s, F, W) == /\ stream = <<>> /\ s \in Streams /\ stream' = s
+                   /\ F \in Fails /\ F \subseteq 1..Len(s)
+                   /\ W \in Swaps /\ W \subseteq 1..Len(s) /\ (F = {} \/ W = {} \/ F = W)
+                   /\ UNCHANGED <<fed, delivered, nreads>>
+                   /\ Log("Stream", [kinds |-> s, fail |-> F, swap |-> W], [x |-> 0])
 
 Read(k) ==
   /\ stream # <<>> /\ k >= 1 /\ k <= ReadMax /\ fed + k <= Total(stream)
@@ -53,7 +58,7 @@ Read(k) ==
 Ks == IF Cuts = {} THEN 1..ReadMax
       ELSE {c - fed : c \in {x \in Cuts \cup {Total(stream)} : x > fed}} \cup {ReadMax}
 ReadAny == \E k \in Ks : Read(k)
-ChooseAny == \E s \in Streams, F \in Fails : Choose(s, F)
+ChooseAny == \E s \in Streams, F \in Fails, W \in Swaps : Choose(s, F, W)
 Next == ChooseAny \/ ReadAny
 Spec == Init /\ [][Next]_vars
 
